@@ -34,6 +34,8 @@ MONO_SLACK = 1e-12
 HDI_FINDING = "C15-hdi-not-shortest-within-1e-9-at-coverage-near-1"
 
 QUICK_NS = [1, 2, 3, 4, 5, 7, 10, 13, 20, 31, 50, 100, 199, 300]
+LARGE_NS = [1100, 1500, 2000]
+LARGE_COVS = [0.5, 0.9, 0.99]
 COVS = [0.0, 1e-9, 1e-6, 1e-3, 0.1, 0.5, 0.9, 0.95, 0.99, 1 - 1e-3, 1 - 1e-6, 1 - 1e-9, 1.0]
 
 
@@ -127,14 +129,35 @@ def propose_level_set(a, b, M):
     l_hi = logf(a, b, m)
     l_lo = l_hi - 1.0
     ends = lambda l: (0.0 if a == 1 else crossing(a, b, l, 0.0, m, True), 1.0 if b == 1 else crossing(a, b, l, m, 1.0, False))
+    # phase 1 (large parameters only, where an exact mass costs tens of ms): float masses from the regularised incomplete
+    # beta function narrow the level to a few ulps; phase 2 then needs only a handful of exact evaluations
+    Mf = float(M)
+    if a + b > 400:
+        from scipy import special
+        fmass = lambda l: (lambda e: float(special.betainc(a, b, e[1]) - special.betainc(a, b, e[0])))(ends(l))
+        while fmass(l_lo) < Mf and l_lo > -1e7:
+            l_lo = l_hi - 2.0 * (l_hi - l_lo)
+        for _ in range(90):
+            l = 0.5 * (l_lo + l_hi)
+            if l == l_lo or l == l_hi:
+                break
+            if fmass(l) >= Mf:
+                l_lo = l
+            else:
+                l_hi = l
+        w = max(abs(l_lo), 1.0) * 1e-13
+        l_lo, l_hi = l_lo - w, l_hi + w
+    # phase 2: exact masses (Python integers); widen downwards until the level set has at least the mass M, then bisect
+    step = max(l_hi - l_lo, 1e-13)
     while True:
         xl, yr = ends(l_lo)
         if mass_exact(a, b, xl, yr) >= M or l_lo < -1e7:
             break
-        l_lo = l_hi - 2.0 * (l_hi - l_lo)
+        l_lo -= step
+        step *= 2.0
     for _ in range(90):
         l = 0.5 * (l_lo + l_hi)
-        if l == l_lo or l == l_hi:
+        if l == l_lo or l == l_hi or (l_hi - l_lo) <= 4e-16 * max(abs(l_lo), 1.0):
             break
         xl, yr = ends(l)
         if mass_exact(a, b, xl, yr) >= M:
@@ -164,13 +187,21 @@ def ab_pairs(rng, tier):
     if tier == "quick":
         ns += [rng.randint(6, 250) for _ in range(2)]
     else:
-        ns += [rng.randint(2, 300) for _ in range(40)] + [500, 1000, 2000]
+        ns += [rng.randint(2, 300) for _ in range(40)] + [500, 1000]
     pairs = []
     for n in ns:
         iis = {1, 2, 3, (n + 3) // 4, (n + 1) // 2, n // 2 + 1, n - 2, n - 1, n, rng.randint(1, n)}
         if n > 500:
             iis = {1, 2, (n + 1) // 2, n - 1, n}
         for i in sorted(k for k in iis if 1 <= k <= n):
+            pairs.append((i, n + 1 - i))
+    # the upper part of the quantifier's range (n up to 2000), where float densities x^(a-1)(1-x)^(b-1) underflow: every
+    # tier, exact like the rest but with three coverages and a small x grid per pair (see LARGE_COVS)
+    for n in LARGE_NS + ([rng.randint(1001, 2000)] if tier != "quick" else []):
+        iis = {1, (n + 3) // 4, (n + 1) // 2, (3 * n) // 4, n}
+        if tier != "quick":
+            iis |= {2, n - 1, rng.randint(1, n)}
+        for i in sorted(iis):
             pairs.append((i, n + 1 - i))
     return pairs
 
@@ -180,12 +211,18 @@ def x_grid(rng, a, b, util):
     with warnings.catch_warnings():
         warnings.simplefilter("ignore")
         med = float(util.beta_equal_tailed_interval(a, b, 0.0)[0])
+    sd = math.sqrt(a * b / ((a + b) ** 2 * (a + b + 1)))
+    if a + b - 1 > 1000:
+        # large n: each exact evaluation costs 0.05-0.2 s, keep the grid small but on both sides of the mode
+        xs = {0.0, 1.0, med, (a - 1) / (a + b - 2)}
+        xs.update(min(1.0, max(0.0, med + s * abs(rng.gauss(0, 1)) * sd)) for s in (-1, 1))
+        return sorted(xs), med
     xs = {0.0, 1.0, med, 1e-12, 1 - 1e-12, 0.5, 1e-3, 1 - 1e-3}
     if a + b > 2:
         mode = (a - 1) / (a + b - 2)
         xs.update([mode, float(np.nextafter(mode, 0)), float(np.nextafter(mode, 1))])
     xs.update(rng.random() for _ in range(4))
-    xs.update(min(1.0, max(0.0, med + rng.gauss(0, 1) * math.sqrt(a * b / ((a + b) ** 2 * (a + b + 1))))) for _ in range(6))
+    xs.update(min(1.0, max(0.0, med + rng.gauss(0, 1) * sd)) for _ in range(6))
     return sorted(xs), med
 
 
@@ -212,9 +249,13 @@ def run(seed, tier, replay=None):
         warnings.simplefilter("ignore")
         for (a, b) in pairs:
             n = a + b - 1
-            rep.count("n=%s" % (n if n <= 5 else "6-50" if n <= 50 else "51-300" if n <= 300 else ">300"))
+            rep.count("n=%s" % (n if n <= 5 else "6-50" if n <= 50 else "51-300" if n <= 300 else "301-1000" if n <= 1000 else "1001-2000"))
             rep.count("shape=" + ("a=b=1" if a == b == 1 else "a=1" if a == 1 else "b=1" if b == 1 else "interior mode"))
             covs = list(COVS) + [rng.random(), 1 - 10 ** rng.uniform(-9, -1), 10 ** rng.uniform(-9, -1)]
+            if n > 1000 and tier == "quick":
+                covs = list(LARGE_COVS)
+            elif n > 1000:
+                covs = list(LARGE_COVS) + [0.0, 1e-9, 1 - 1e-9, 1.0, rng.random()]
             covs = [float(c) for c in covs]
             ca = np.array(covs)
             # ---- equal-tailed interval (one broadcast call over the coverages)
@@ -456,8 +497,10 @@ def run(seed, tier, replay=None):
 
     return rep.result(
         rule="(a,b) = (i, n+1-i) for a structured set of n (1,2,3,4,5,7,10,13,20,31,50,100,199,300 + random; thorough adds 40 random n, "
-             "500, 1000, 2000) and i in {1,2,3,n/4,n/2,n/2+1,n-2,n-1,n,random}; coverages {0,1e-9,1e-6,1e-3,.1,.5,.9,.95,.99,1-1e-3,"
-             "1-1e-6,1-1e-9,1,random x3}; x grids {0,1,mode and neighbours,median,1e-12,1-1e-12,.5,random, normal around the mean}. "
+             "500, 1000) and i in {1,2,3,n/4,n/2,n/2+1,n-2,n-1,n,random}; coverages {0,1e-9,1e-6,1e-3,.1,.5,.9,.95,.99,1-1e-3,"
+             "1-1e-6,1-1e-9,1,random x3}; plus, in every tier, n in {1100,1500,2000} x i in {1,n/4,n/2,3n/4,n} x coverages "
+             "{.5,.9,.99} (all four helpers, exact; thorough adds a random n in 1001..2000, i in {2,n-1,random} and the extreme "
+             "coverages); x grids {0,1,mode and neighbours,median,1e-12,1-1e-12,.5,random, normal around the mean}. "
              "A case is one exact check of one returned value (interval, inverse relation at one end point, coverage value, "
              "monotonicity of one grid, one broadcast call); distinct by hash of (kind, a, b, argument).",
         extra=dict(driver_lines=drv.lines))
